@@ -6,6 +6,7 @@ CONSTANTS
   DelimKinds = {"nl", "c1", "R3", "a12", "a11"}
   HostDelimKinds = {}
   WithNoop = TRUE
+  WithLim = TRUE
   Codecs = {"bytes", "json"}
   PayAlpha = {1, 255}
   MaxPay = 2
